@@ -80,6 +80,9 @@ class World:
                 r = self._m[mode] @ x.asnumpy().reshape(-1)
                 return ift.makeField(out, r.reshape(out.shape))
 
+            def draw_sample(self, from_inverse=False, device_id=-1):
+                raise NotImplementedError   # what EndomorphicOperator provides
+
             def __repr__(self):
                 return "DenseLeaf"
 
